@@ -43,5 +43,9 @@ def run(prop, tier, seed, replay):
         common.ensure_impl_python()
         import edif_check
         return edif_check.run(prop, tier, seed, replay)
+    if prop == 'C18':
+        common.ensure_impl_python()
+        import eblif_check
+        return eblif_check.run(prop, tier, seed, replay)
     print('no check registered for', prop)
     return 2
